@@ -59,7 +59,7 @@ def density_job(comm, shape, nprocs, vspace, a, h, coeffs, dtype, perturbed, out
             for k in range(shape[1]):
                 cv = np.array(coeffs[gr][k][gz], dtype=float)
                 data[i, j, k, :] = B @ cv + (feq[gr, :] if perturbed else 0.0)
-    rho.getAllData()[:] = -777.0
+    rho.getAllData()[:] = (-777.0 - 555.0j) if np.dtype(dtype) == np.complex128 else -777.0     # stale storage: both parts must be overwritten
     (df0 if (rk + len(coeffs)) % 2 else df).getRho(f, rho)          # warm-up call through one of the two finders
     if perturbed:
         (df if rk % 2 else df0).getPerturbedRho(f, rho)
